@@ -123,7 +123,7 @@ PlanFns == {"OpenFile", "FileWrite", "FileClose", "FileRead", "FileStat", "FileR
 Plans == IF WKind = "failfs" THEN {NoPlan} \cup {[fn |-> f, k |-> k] : f \in PlanFns, k \in 1..2} ELSE {NoPlan}
 RECURSIVE JoinSlash(_)
 JoinSlash(ps) == IF ps = <<>> THEN "" ELSE "/" \o Head(ps) \o JoinSlash(Tail(ps))
-WrapName == IF w = "sub" THEN "sub:" \o (IF wx.dir = <<>> THEN "/" ELSE JoinSlash(wx.dir))
+WrapName == IF w = "sub" THEN (IF wx.nested THEN "subn:" ELSE "sub:") \o (IF wx.dir = <<>> THEN "/" ELSE JoinSlash(wx.dir))
             ELSE IF wx.plan.fn = "none" THEN w ELSE w \o ":" \o wx.plan.fn \o ":" \o ToString(wx.plan.k)
 PlanFired == w # "sub" /\ wx.plan.fn # "none" /\ CountOf(wx.fc, wx.plan.fn) >= wx.plan.k
 
@@ -152,7 +152,10 @@ Build ==
           /\ st' = o.st /\ hist' = Append(hist, c) /\ last' = [call |-> c, res |-> o.res] /\ UNCHANGED <<w, wh, wx>>
 
 Wrap == /\ w = "none" /\ w' = WKind /\ UNCHANGED <<st, hist, wh, last>>
-        /\ IF WKind = "sub" THEN \E d \in SubDirs : wx' = [dir |-> d, vcwd |-> <<>>, umask |-> st.umask]
+        \* (from the parent with its own working directory the view is made level by level - Sub("/w").Sub("/B") -:
+        \* a nested view is the view of the concatenated directory)
+        /\ IF WKind = "sub" THEN \E d \in SubDirs : wx' = [dir |-> d, vcwd |-> <<>>, umask |-> st.umask,
+                                                            nested |-> (Len(hist) = Len(BpBase) + 2 /\ hist[Len(hist)].op = "setumask")]
            ELSE \E p \in Plans : wx' = [plan |-> p, fc |-> EmptyFn]
 
 \* the strict outcome through the wrapper (the first admissible error of a refusal is the canonical one)
